@@ -183,14 +183,18 @@ Definition cb_enter (k : nat) (w : world) : world :=
 Lemma open_cb_eq d w : open_cb d w = open_fn d (cb_enter 1 w).
 Proof. unfold open_cb. rewrite pop_eq. rewrite apply_toggle_eq. reflexivity. Qed.
 
-Definition close_hand (d : dstm) (a : ans) (was_open : bool) (w : world) : world :=
+(* the platform takes the closed packet (and may install another buffer) *)
+Definition close_give (d : dstm) (a : ans) (w : world) : world :=
   let c := w_c w in
-  if was_open && negb (c_open c) then
-    let w := logev w (EPacket (c_psize c) (bytes_of_stream (d_bo d) (c_s c) (c_psize c / 8))) in
-    match a_newbuf a with
-    | Some b => set_c w (packet_set_buf (w_c w) b)
-    | None => w
-    end
+  let w := logev w (EPacket (c_psize c) (bytes_of_stream (d_bo d) (c_s c) (c_psize c / 8))) in
+  match a_newbuf a with
+  | Some b => set_c w (packet_set_buf (w_c w) b)
+  | None => w
+  end.
+(* ... and, on an "eager" (double-buffering) platform, opens the next packet itself *)
+Definition close_hand (d : dstm) (a : ans) (was_open : bool) (w : world) : world :=
+  if was_open && negb (c_open (w_c w)) then
+    if a_eager a then open_fn d (close_give d a w) else close_give d a w
   else w.
 
 Lemma close_cb_eq d w :
